@@ -25,6 +25,8 @@ REQUIRED_PROBES = ("req_ok", "derive", "clone", "caller_objs_checked")
 
 REAL_VS_STUB = {'real': ['ak.conn_http', 'ak.mcaller_http', 'ak.mcaller (instrumented, every bytecode instruction a pre-emption point)', 'json, urllib.parse, urllib.request.Request, base64, http.client exceptions (atomic steps)'], 'stub': ['the network: urllib.request.OpenerDirector.open -> in-process transport with latency and fault injection', 'threading.Lock/RLock as seen by ak.conn_http -> simulator locks', 'thread scheduling -> seeded baton scheduler', 'random in ak.conn_http -> PRNG derived from the run seed', 'ssl.SSLContext.load_default_certs -> no-op', 'process-global state -> one fresh forked process per run']}
 
+ASSUMPTIONS = ["the structural reference model in sim/models/http_model.py (chain = own adapters then the parent's, snapshot at derivation)", 'urllib Request header capitalisation; urlencode for the query string', 'add_adapter is exercised on connections without dependents only (the statement fixes nothing else)', 'tuples of adapters and direct _HttpConnImpl.do_request calls are outside the statement and not generated']
+
 RULE = ("each run = one seeded history of 8-40 ops over a shared DAG (derive HttpConn/BAuth/ClientAuth/TokenAuth/"
         "prefix/harness-adapter layers, method callers with prefix maps, clone(None|adapter|list|tuple), add_adapter, "
         "requests with all verbs and params/data/header shapes, raw responses) with per-request transport faults; one "
